@@ -707,4 +707,60 @@ example : TanOK .theta 1 ∧ TanOK .z 0 ∧ CanonTmp .tau 1 ∧ mag2Of .xy .z (1
   ⟨ne_of_gt cos_one_pos, trivial, (by show (0 : ℝ) ≤ 1; norm_num), by norm_num [mag2Of, xOf, yOf, zOf],
     (sin_pos_of_pos_of_lt_pi one_pos (by linarith [two_le_pi])).ne', trivial⟩
 
+/-!
+## Table: what regularity (H') needed beyond the refinement hypotheses (H)
+
+"same" = `regular_<m>` has exactly the hypotheses of the refinement theorem.  `SinOK k c` is `sin c ≠ 0` for θ storage
+(`True` otherwise); `TanOK k c` is `cos c ≠ 0` for θ storage; `DotEtaOK` is `η ≠ 0` for the η operand of the key pairs
+`rhophi_eta × rhophi_theta` and `rhophi_theta × rhophi_eta`.
+
+| module                      | refinement theorem                     | H' vs H |
+|-----------------------------|----------------------------------------|---------|
+| planar_x, y, rho, rho2      | refine_planar_…                        | same (no hypotheses) |
+| planar_phi                  | refine_planar_phi                      | same |
+| planar_dot, add, subtract   | refine_planar_…                        | same (no hypotheses) |
+| planar_scale, rotateZ, transform2D, deltaphi | refine_planar_…       | same (no hypotheses) |
+| planar_unit                 | refine_planar_unit                     | same (`0 < ρ`) |
+| planar_equal, not_equal     | refine_planar_equal / _not_equal       | same |
+| planar_isclose              | c12_planar_isclose_same                | same (no hypotheses; regular for all key pairs) |
+| planar_is_parallel, is_antiparallel, is_perpendicular | c13_planar_is_…_iff | same (no hypotheses) |
+| spatial_z                   | refine_spatial_z                       | + SinOK for θ keys (`ρ / tan θ` at θ = 0, π) |
+| spatial_mag2, mag           | refine_spatial_mag2 / _mag             | same (SinOK already in H) |
+| spatial_costheta, theta     | refine_spatial_costheta / _theta       | same (`Canon3`, `0 < |p|²`) |
+| spatial_cottheta            | refine_spatial_cottheta                | + SinOK for θ keys; + η ≠ 0 for η keys (`1 / tan (2 arctan e^{-η})`) |
+| spatial_eta                 | refine_spatial_eta                     | same |
+| spatial_dot                 | refine_spatial_dot                     | + SinOK for θ operands; + η ≠ 0 for the ρφη×ρφθ / ρφθ×ρφη keys |
+| spatial_cross               | refine_spatial_cross                   | + SinOK for θ operands |
+| spatial_scale               | refine_spatial_scale                   | same |
+| spatial_add, subtract       | refine_spatial_add / _subtract         | + SinOK for θ operands |
+| spatial_unit                | refine_spatial_unit                    | same |
+| spatial_deltaangle          | refine_spatial_deltaangle              | + operands ≠ 0 (`0 < |p₁|²`, `0 < |p₂|²`, all keys); + η ≠ 0 for the ρφη×ρφθ keys |
+| spatial_deltaeta, deltaR2   | refine_spatial_deltaeta / _deltaR2     | same |
+| spatial_deltaR              | refine_spatial_deltaR ∘ refine_spatial_deltaR2 | hypotheses of `refine_spatial_deltaR2` (`refine_spatial_deltaR` alone, `= √deltaR2`, has none: + `0 < ρ`, `CanonLon` for both operands) |
+| spatial_equal, not_equal    | refine_spatial_equal / _not_equal      | same |
+| spatial_isclose             | c12_spatial_isclose_same               | same (no hypotheses, same-system keys; mixed keys need `Canon3`, `TanOK`: `dom_spatial_isclose_partial`) |
+| spatial_is_parallel, is_antiparallel, is_perpendicular | c13_spatial_is_…_iff | + TanOK and SinOK for θ operands; + η ≠ 0 for the ρφη×ρφθ keys (H is empty) |
+| spatial_rotateX, rotateY    | refine_spatial_rotateX / Y             | + sin θ ≠ 0 for θ keys |
+| spatial_rotate_quaternion, rotate_euler | refine_spatial_rotate_…    | + sin θ ≠ 0 for θ keys |
+| spatial_transform3D         | refine_spatial_transform3D_interp      | + sin θ ≠ 0 for θ keys |
+| spatial_rotate_axis         | refine_spatial_rotate_axis             | + axis ≠ 0 (`0 < |u|²`, all keys); + sin θ ≠ 0 for θ-stored axis / vector |
+| lorentz_t2, t, tau2, tau    | refine_lorentz_…                       | same |
+| lorentz_beta, gamma, rapidity | refine_lorentz_…                     | same |
+| lorentz_Et2, Et             | refine_lorentz_Et2 / _Et               | same |
+| lorentz_Mt2, Mt             | refine_lorentz_Mt2 / _Mt               | + SinOK for the `(·, θ, t)` keys (`z = ρ / tan θ`) |
+| lorentz_is_timelike, is_lightlike, is_spacelike | c13_is_…_iff_dot   | + `sin θ ≠ 0 ∧ cos θ ≠ 0` for θ keys, `0 ≤ τ` for τ keys (H is empty; these are the hypotheses of `c13_causal_classes_t_keys` / `_tau_keys`) |
+| lorentz_to_beta3            | refine_lorentz_to_beta3_ne_zero        | same |
+| lorentz_unit                | refine_lorentz_unit                    | same |
+| lorentz_scale               | refine_lorentz_scale_partial           | same |
+| lorentz_transform4D         | refine_lorentz_transform4D             | same (SinOK already in H) |
+| lorentz_dot                 | refine_lorentz_dot                     | + η ≠ 0 for the `(ρφ, η, ·) × (ρφ, θ, ·)` / `(ρφ, θ, ·) × (ρφ, η, ·)` keys |
+| lorentz_add, subtract       | refine_lorentz_add / _subtract         | same (SinOK already in H) |
+| lorentz_equal, not_equal    | refine_lorentz_equal / _not_equal      | same |
+| lorentz_isclose             | c12_lorentz_isclose_same               | same (no hypotheses, same-system keys; mixed keys need `Canon4`, `TanOK`: `dom_lorentz_isclose_partial`) |
+| lorentz_deltaRapidityPhi2, deltaRapidityPhi | refine_lorentz_…       | same |
+| lorentz_boostX/Y/Z_beta, boostX/Y/Z_gamma | refine_lorentz_boost…_spec | same (SinOK already in H) |
+| lorentz_boost_beta3         | refine_lorentz_boost_beta3_spec        | + SinOK for a θ-stored vector and a θ-stored velocity |
+| lorentz_boost_p4            | refine_lorentz_boost_p4_spec           | + SinOK for a θ-stored FIRST operand (booster already has it) |
+-/
+
 end VR
